@@ -221,6 +221,7 @@ type tcpConn struct {
 	lastUse     time.Time
 	dead        bool
 	claimed     bool // handed to a sender that has not written yet
+	private     bool // dialled for one sender (closer / pipeline / probe): never handed to another query
 	weClosed    bool
 	stray       int
 	done        chan struct{}
@@ -445,7 +446,7 @@ func (c *clients) oneShotUDP() (*udpSock, error) {
 }
 
 // tcpFor returns an idle pooled connection used less than maxIdle ago, or
-// dials a fresh one.
+// dials a fresh one (fresh = true: always dial, and keep it out of the pool).
 func (c *clients) tcpFor(fresh bool) (*tcpConn, error) {
 	const maxIdle = 1500 * time.Millisecond
 	if !fresh {
@@ -454,7 +455,7 @@ func (c *clients) tcpFor(fresh bool) (*tcpConn, error) {
 		c.mu.Unlock()
 		for _, t := range conns {
 			t.mu.Lock()
-			ok := !t.dead && !t.claimed && len(t.outstanding) == 0 && time.Since(t.lastUse) < maxIdle
+			ok := !t.private && !t.dead && !t.claimed && len(t.outstanding) == 0 && time.Since(t.lastUse) < maxIdle
 			if ok {
 				t.claimed = true
 				t.lastUse = time.Now()
@@ -472,6 +473,11 @@ func (c *clients) tcpFor(fresh bool) (*tcpConn, error) {
 		c.mu.Unlock()
 		return nil, err
 	}
+	// A connection dialled for a client that will walk away (or for a
+	// pipelined burst / a probe) belongs to that client alone: handing it to
+	// another query would let the first owner's close orphan the second
+	// query — a harness artefact that reads as a lost reply.
+	t.private = fresh
 	c.mu.Lock()
 	c.tcp = append(c.tcp, t)
 	c.mu.Unlock()
